@@ -24,7 +24,7 @@ use crate::{
     parsers::{split_tcp_stream, TcpEvent},
 };
 
-const RULE: &str = "a case = one exporter (buffer_size from {None, 1, 2, 16, 1024}) on a real 127.0.0.1 listener, 0-3 descriptions made before any client, 1-4 clients (readers; clients that close or reset (SO_LINGER 0) after a generated phase; a staller with a 1 KiB receive buffer that reads nothing until the end while ~2.5 MB of large frames are emitted) joining at generated phases, and 2-4 phases of emissions of every operation kind from 1-3 threads, each emission uniquely tagged; emissions are paced (at most min(buffer,8) outstanding, next batch after the designated reader has them). Oracle: every client's bytes split into whole length-delimited Events under a hand-written protobuf reader, metadata before metrics, every metric equal to an emitted one, none twice, per-thread order kept, and every accepted reading client gets every paced emission made after its acceptance. Non-trivial = >= 2 clients with a disconnect or stall while another is reading, or buffer_size None. Distinct = distinct decoded cases. Cases run in child processes (each exporter leaks its transport thread).";
+const RULE: &str = "a case = one exporter (buffer_size from {None, 1, 2, 16, 1024}) on a real 127.0.0.1 listener, 0-3 descriptions made before any client, 1-4 clients (readers; clients that close or reset (SO_LINGER 0) after a generated phase; a staller with a 1 KiB receive buffer that reads nothing until the end while ~2.5 MB of large frames are emitted) joining at generated phases (in about a quarter of the cases also a burst of 5-14 readers that connect back to back, with 150 extra descriptions to serve), and 2-4 phases of emissions of every operation kind from 1-3 threads, each emission uniquely tagged; emissions are paced (at most min(buffer,8) outstanding, next batch after the designated reader has them). Oracle: every client's bytes split into whole length-delimited Events under a hand-written protobuf reader, metadata before metrics, every metric equal to an emitted one, none twice, per-thread order kept, and every accepted reading client gets every paced emission made after its acceptance. Non-trivial = >= 2 clients with a disconnect or stall while another is reading, or buffer_size None. Distinct = distinct decoded cases. Cases run in child processes (each exporter leaks its transport thread).";
 
 static META: Metadata<'static> = Metadata::new("c11", Level::INFO, None);
 
@@ -40,6 +40,8 @@ enum Behaviour {
 struct ClientSpec {
     join_phase: usize,
     behaviour: Behaviour,
+    /// member of a burst: all burst clients of a phase connect back to back before any of them is waited for
+    burst: bool,
 }
 
 #[derive(Debug)]
@@ -71,7 +73,7 @@ fn decode(src: &mut Source) -> Script {
                     _ => Behaviour::CloseAfter(0),
                 }
             };
-            ClientSpec { join_phase: if i == 0 { 0 } else { src.below(nphases) }, behaviour }
+            ClientSpec { join_phase: if i == 0 { 0 } else { src.below(nphases) }, behaviour, burst: false }
         })
         .collect();
     // at most one staller (it costs megabytes)
@@ -85,7 +87,23 @@ fn decode(src: &mut Source) -> Script {
         }
     }
     let phases = (0..nphases).map(|_| (0..emitters).map(|_| 1 + src.below(6)).collect()).collect();
-    Script { buffer, describes, clients, phases, emitters, late_describe: src.bool() }
+    let late_describe = src.bool();
+    // a burst of readers connecting back to back (more connections pending than one pass of an accept loop may take)
+    let mut describes = describes;
+    if src.chance(70) {
+        let (n, ph) = (5 + src.below(10), src.below(nphases));
+        for _ in 0..n {
+            clients.push(ClientSpec { join_phase: ph, behaviour: Behaviour::Reader, burst: true });
+        }
+        // a good deal of metadata, so that serving one accepted client takes the transport thread a while
+        // (descriptions travel through the same bounded queue as metrics: only where the buffer holds them all)
+        if buffer.map(|b| b >= 1024).unwrap_or(true) {
+            for i in 0..150 {
+                describes.push(('c', format!("bulk_desc_{}", i), None, "x".repeat(300)));
+            }
+        }
+    }
+    Script { buffer, describes, clients, phases, emitters, late_describe }
 }
 
 struct Client {
@@ -261,13 +279,25 @@ fn run_script(sc: &Script, ctx: &mut Ctx) -> Result<(), Fail> {
     let probe_thread = sc.emitters;
     let result = (|| -> Result<(), Fail> {
         for (pi, phase) in sc.phases.iter().enumerate() {
-            // joins
+            // joins: the members of a burst all connect first, back to back
+            let mut pre: HashMap<usize, TcpStream> = HashMap::new();
+            for ci in 0..clients.len() {
+                if clients[ci].spec.join_phase == pi && clients[ci].spec.burst {
+                    pre.insert(ci, connect(port, false).map_err(|e| Fail::new("exporter-not-accepting", format!("burst client {} could not connect to the exporter (buffer_size {:?}): {}", ci, sc.buffer, e)))?);
+                }
+            }
+            if pre.len() >= 5 {
+                ctx.nontrivial("burst-of-five-or-more-connections");
+            }
             for ci in 0..clients.len() {
                 if clients[ci].spec.join_phase != pi {
                     continue;
                 }
                 let stall = clients[ci].spec.behaviour == Behaviour::Staller;
-                let sock = connect(port, stall).map_err(|e| Fail::new("exporter-not-accepting", format!("client {} could not connect to the exporter (buffer_size {:?}): {}", ci, sc.buffer, e)))?;
+                let sock = match pre.remove(&ci) {
+                    Some(s) => s,
+                    None => connect(port, stall).map_err(|e| Fail::new("exporter-not-accepting", format!("client {} could not connect to the exporter (buffer_size {:?}): {}", ci, sc.buffer, e)))?,
+                };
                 clients[ci].open = true;
                 if !stall {
                     clients[ci].reader = Some(spawn_reader(&sock, clients[ci].buf.clone(), clients[ci].stop.clone()));
@@ -385,17 +415,33 @@ fn run_script(sc: &Script, ctx: &mut Ctx) -> Result<(), Fail> {
         for c in clients.iter_mut() {
             if c.spec.behaviour == Behaviour::Staller && c.open {
                 if let Some(s) = &c.sock {
+                    // from now on an ordinary receive buffer: with the 1 KiB one the peer can only make progress
+                    // through zero-window probes (hundreds of milliseconds apart), which no quiescence rule survives
+                    unsafe {
+                        use std::os::fd::AsRawFd;
+                        let sz: libc::c_int = 4 << 20;
+                        libc::setsockopt(s.as_raw_fd(), libc::SOL_SOCKET, libc::SO_RCVBUF, &sz as *const _ as *const libc::c_void, 4);
+                    }
                     c.reader = Some(spawn_reader(s, c.buf.clone(), c.stop.clone()));
                 }
                 let buf = c.buf.clone();
                 let mut last = (0usize, Instant::now());
-                let _ = wait_for(Duration::from_secs(8), || {
-                    let n = buf.lock().unwrap().len();
+                // quiescent = something arrived, the bytes so far end on a frame boundary and nothing has arrived for
+                // 1 s; or nothing at all has arrived for 4 s (then a torn tail is the exporter's doing)
+                let settled = wait_for(Duration::from_secs(30), || {
+                    let b = buf.lock().unwrap();
+                    let n = b.len();
                     if n != last.0 {
                         last = (n, Instant::now());
                     }
-                    Ok(n > 0 && last.1.elapsed() > Duration::from_millis(400))
+                    let idle = last.1.elapsed();
+                    let whole = idle > Duration::from_millis(1000) && split_tcp_stream(&b).map(|(_, l)| l == 0).unwrap_or(true);
+                    Ok(n > 0 && (whole || idle > Duration::from_secs(4)))
                 })?;
+                if !settled {
+                    ctx.discard = true; // still trickling after 30 s: inconclusive, not a verdict
+                    return Ok(());
+                }
             }
         }
         // every accepted reader that is still open must have every paced emission since its acceptance
@@ -421,6 +467,12 @@ fn run_script(sc: &Script, ctx: &mut Ctx) -> Result<(), Fail> {
         for (ci, c) in clients.iter().enumerate() {
             let bytes = c.buf.lock().unwrap().clone();
             let (events, leftover) = split_tcp_stream(&bytes).map_err(|e| Fail::new("stream-not-whole-frames", format!("client {} ({:?}): {}", ci, c.spec.behaviour, e)))?;
+            if c.open && leftover != 0 && std::env::var("VERIF_C11_DEBUG").is_ok() {
+                let n0 = bytes.len();
+                std::thread::sleep(Duration::from_secs(3));
+                let n1 = c.buf.lock().unwrap().len();
+                eprintln!("C11 debug: client {} had {} bytes ({} events, leftover {}), 3 s later {} bytes", ci, n0, events.len(), leftover, n1);
+            }
             if c.open {
                 ensure!(leftover == 0, "stream-ends-inside-a-frame", "client {} ({:?}) is still connected and quiescent but its stream ends with {} bytes that are not a whole frame", ci, c.spec.behaviour, leftover);
             }
